@@ -3,7 +3,3 @@ package sim
 import "encoding/json"
 
 func jsonUnmarshal(s string, v any) error { return json.Unmarshal([]byte(s), v) }
-
-func (s *Sim) oracleHTTPDone(h *HTTPCall) {}
-
-func (s *Sim) httpCallJustified(r *Req) {}
